@@ -18,6 +18,11 @@ from ..profiles import Profile, register
 from ..universe import gen_universe
 
 PROPERTY = "C13"
+# pre-emption inside the schema / reference-resolution layer too (response validation of several workers can overlap there)
+EXTRA_WHITELIST = [
+    "schemathesis.specs.openapi.schemas",
+    "schemathesis.specs.openapi.references",
+]
 CASE_ID = "x-schemathesis-testcaseid"
 # standard client headers whose value is transport framing, not test data
 VOLATILE = {CASE_ID}
